@@ -60,7 +60,7 @@ RULE = ('random diffusion configurations: model {single phase, homogenization x 
         'Ni-Cr-Al, Fe-Cr-Ni} x mesh 8-60 nodes (length 1e-5..2e-3 m, run time scaled from the model\'s own first '
         'step so that >=20 steps are planned) x initial profile per element {step, linear, bounded, single node, '
         'function, data} x temperature {constant, time array, f(z,t) field} x boundary condition per element and '
-        'side {closed, non-zero flux, fixed composition, draining flux on an empty node} x {Euler, RK4} x cache {on, off request, 3-5 digits} x 1-4 '
+        'side {closed (default or zero flux set explicitly), non-zero flux, fixed composition incl. value exactly 0 (perfect sink) alone/with all other boundary values zero/mixed with non-zero ones, draining flux on an empty node} x {Euler, RK4} x cache {on, off request, 3-5 digits} x 1-4 '
         'consecutive solve calls; balanced decks per dimension, pairings random in the seed. A case is non-trivial '
         'when >=10 steps were accepted, max|x_final-x_initial| > 1e-6 and the identity was evaluated on >=5 steps (not clamped); distinct by '
         'configuration hash')
@@ -163,7 +163,7 @@ def plan(tier, seed):
         'ncalls': _deck(rng, [1, 2, 3, 4, 1, 2], n),
         'pkind': _deck(rng, PROFILE_KINDS, n),
         'T': _deck(rng, ['const', 'array', 'field', 'const'], n),
-        'bcmode': _deck(rng, ['closed', 'flux', 'comp', 'mixed', 'mixed', 'flux', 'comp', 'mixed'], n),
+        'bcmode': _deck(rng, ['closed', 'flux', 'comp', 'mixed', 'mixed', 'flux', 'comp', 'mixed', 'zero', 'zero'], n),
         'minc': _deck(rng, [1e-8, 1e-8, 1e-7, 1e-6], n),
     }
     cases = []
@@ -187,6 +187,10 @@ def plan(tier, seed):
             for side in ('L', 'R'):
                 if mode == 'closed':
                     kind = 'closed'
+                elif mode == 'zero':
+                    # every boundary VALUE in the model is zero: perfect sinks (fixed composition 0), closed sides
+                    # left at their default and zero fluxes set explicitly
+                    kind = ['comp0', 'comp0', 'closed', 'flux0'][int(rng.integers(0, 4))]
                 elif mode == 'flux':
                     kind = ['flux', 'flux', 'closed', 'drain'][int(rng.integers(0, 4))]
                 elif mode == 'comp':
@@ -198,11 +202,18 @@ def plan(tier, seed):
                 elif kind == 'drain':
                     val = _r(rng.uniform(0.3, 1.0))
                 elif kind == 'comp':
-                    val = _r(rng.uniform(*win[e]))
+                    # a quarter of the fixed-composition sides are perfect sinks (value exactly 0), mixed with non-zero values
+                    val = 0.0 if rng.random() < 0.25 else _r(rng.uniform(*win[e]))
                 else:
                     val = 0.0
+                    if kind == 'closed' and mode != 'zero' and rng.random() < 0.2:
+                        kind = 'flux0'          # zero flux set explicitly instead of left at the default
+                if kind == 'comp0':
+                    kind = 'comp'
                 bc[e][side] = [kind, val]
-        if mode != 'closed' and all(bc[e][s][0] == 'closed' for e in els for s in 'LR'):
+        if mode == 'zero' and not any(bc[e][s][0] == 'comp' for e in els for s in 'LR'):
+            bc[els[int(rng.integers(0, len(els)))]]['LR'[int(rng.integers(0, 2))]] = ['comp', 0.0]
+        if mode not in ('closed', 'zero') and all(bc[e][s][0] in ('closed', 'flux0') for e in els for s in 'LR'):
             bc[els[0]]['L'] = ['flux', _r(rng.uniform(0.3, 1.0))] if mode != 'comp' else ['comp', _r(rng.uniform(*win[els[0]]))]
         ncalls = D['ncalls'][i]
         fr = rng.dirichlet(np.ones(ncalls) * 3.0) * 0.8 + 0.2 / ncalls
@@ -373,7 +384,7 @@ def build_model(case, flux_values, ttot):
         for e in els:
             (kl, vl), (kr, vr) = case['bc'][e]['L'], case['bc'][e]['R']
             if kl == 'closed' and kr == 'closed':
-                continue
+                continue         # both left at the default; 'flux0' sides are set explicitly (value 0)
             lt = BC.COMPOSITION_BC if kl == 'comp' else BC.FLUX_BC
             rt = BC.COMPOSITION_BC if kr == 'comp' else BC.FLUX_BC
             m.setBC(lt, vl if kl == 'comp' else flux_values[e]['L'], rt, vr if kr == 'comp' else flux_values[e]['R'], element=e)
@@ -425,6 +436,7 @@ class Monitor:
         self.nel = len(SYSTEMS[case['system']]['elements'])
         self.base = ExplicitEulerIterator if case['iterator'] == 'euler' else RK4Iterator
         self.mech0 = {'model': case['model'], 'iterator': case['iterator']}
+        self.all_zero = all(s[1] == 0.0 for sd in spec.values() for s in sd.values())
         self.steps = 0
         self.steps_in_call = 0
         self.call = 0
@@ -517,7 +529,7 @@ class Monitor:
                     dev = abs(got - want)
                     R.worst('fixed_node_setup_shift_over_n_min', dev / (self.nel * self.minc))
                     R.check('fixed_node', dev <= self.nel * self.minc * (1 + 1e-6) + 4e-16,
-                            dict(self.mech0, when='after setup', mechanism='setup value', side=side),
+                            dict(self.mech0, when='after setup', mechanism='setup value', side=side, value_zero=bool(want == 0.0)),
                             requested=want, got=got, allowed=self.nel * self.minc)
             else:
                 # ---- nothing may have changed between two solve calls
@@ -579,7 +591,8 @@ class Monitor:
             got = float(x1[e, j])
             ref = self.ref_fixed[(e, side)]
             ok = got == ref
-            R.check('fixed_node', ok, dict(self.mech0, when='step', mechanism='changed during a step', side=side),
+            R.check('fixed_node', ok, dict(self.mech0, when='step', mechanism='changed during a step', side=side,
+                                           value_zero=bool(self.spec[e][side][1] == 0.0), all_bc_values_zero=self.all_zero),
                     step=self.steps, call=self.call, reference=ref, got=got, diff=got - ref)
             if not ok:
                 self.ref_fixed[(e, side)] = got
@@ -634,7 +647,7 @@ class Monitor:
                     R.worst('closed_total_change_over_N', abs(lhs) / self.N)
                 R.observe('conservation_closed' if closed else 'conservation_open')
                 R.check('conservation', err <= TOL_PER_NODE * self.N,
-                        dict(self.mech0, left=_kindname(sd['L']), right=_kindname(sd['R'])),
+                        dict(self.mech0, left=_kindname(sd['L']), right=_kindname(sd['R']), all_bc_values_zero=self.all_zero),
                         step=self.steps, call=self.call, element_index=e, change_of_total=lhs, expected=expected,
                         error=err, tolerance=TOL_PER_NODE * self.N, J_left=J['L'], J_right=J['R'], source=src,
                         dt=dt, dz=self.dz, N=self.N, t=self.t0)
@@ -802,6 +815,17 @@ def run_case(case, R):
             R.observe('nontrivial_with_' + k.replace(' ', '_'))
         if len(case['calls']) > 1:
             R.observe('nontrivial_multicall')
+        sinks = sum(1 for sd in spec.values() for s in sd.values() if s[0] == 'comp' and s[1] == 0.0)
+        if sinks:
+            R.observe('nontrivial_with_fixed_composition_zero')
+            if mon.all_zero:
+                R.observe('nontrivial_sink_and_all_bc_values_zero')
+                if len(case['calls']) > 1:
+                    R.observe('nontrivial_sink_all_zero_multicall')
+            else:
+                R.observe('nontrivial_sink_mixed_with_nonzero_values')
+        if any(case['bc'][e][sd][0] == 'flux0' for e in els for sd in 'LR'):
+            R.observe('nontrivial_with_explicit_zero_flux')
         R.observe('nontrivial_%s_%s' % (case['model'], case['iterator']))
         R.observe('nontrivial_system_' + case['system'])
         R.observe('nontrivial_T_' + case['T']['kind'])
